@@ -18,6 +18,12 @@ Re-extracted from include/Cello.h and src/*.c on every run (called by gen_params
   cfg_ngc_blocks       (file, function) of every `#ifndef CELLO_NGC` block.
   cfg_cache_uses       (file, function) of every use of CELLO_CACHE / CELLO_CACHE_NUM in src/*.c.
   cfg_header_fields    fields of struct Header with the switch that guards each.
+  cfg_del_forwards     one row per call of del / del_raw / del_root inside a destructor (second member of an
+                       `Instance(New, X_New, X_Del)`): (file, destructor, call text, class) with class "guarded" (the call
+                       sits in `if (<arg>)` / `if (<arg> isnt NULL)`), "constructed" (the argument is a field the type's
+                       constructor fills with new/new_raw/new_root) or "unguarded".  del(NULL) is a no-op only when the
+                       collector is compiled in (rem(current(GC), NULL) finds nothing); under CELLO_NGC it raises / crashes.
+  cfg_box_del_guarded  Box_Del forwards its content to del behind a NULL test (model: Config.owner_del).
   cfg_cache_wiring     (slot, class) of every Type_Cache_Entry line of Type_Instance (Type.c); emitted only when
                        the macro still has the audited shape (read slot; if NULL: scan, store; return) and the
                        lines sit inside `#if CELLO_CACHE == 1` followed by `return Type_Scan(self, cls);`.
@@ -369,6 +375,48 @@ def generate(repo, emit, src, func_body):
     emit('cfg_header_fields', None if not fields else
          'Definition cfg_header_fields : list (string * string) := [%s]%%string.   (* field, guarding switch *)'
          % '; '.join('(%s, %s)' % (_coq_str(a), _coq_str(b)) for a, b in fields))
+
+    # ---------------------------------------------------------------- destructors that forward to del
+    fwd = []
+    for fname, text in files:
+        if not fname.endswith('.c'):
+            continue
+        for mi in re.finditer(r'Instance\(\s*New\s*,\s*(\w+)\s*,\s*(\w+)\s*\)', text):
+            ctor, dtor = mi.group(1), mi.group(2)
+            if dtor == 'NULL':
+                continue
+            db = func_body(text, r'static\s+void\s+%s\s*\(\s*var\s+self\s*\)\s*\{' % dtor)
+            cb = func_body(text, r'static\s+void\s+%s\s*\(\s*var\s+self\s*,\s*var\s+args\s*\)\s*\{' % ctor) or ''
+            if db is None:
+                fwd.append((fname, dtor, '?', 'unguarded'))
+                continue
+            for mc in re.finditer(r'\b(del|del_raw|del_root)\s*\(', db):
+                q = _balanced(db, mc.end() - 1, '(', ')')
+                arg = re.sub(r'\s+', '', db[mc.end():q - 1])
+                cls = 'unguarded'
+                # innermost enclosing `if (...) {` whose condition tests exactly this argument
+                for mf in re.finditer(r'if\s*\(', db[:mc.start()]):
+                    pe = _balanced(db, mf.end() - 1, '(', ')')
+                    cond = re.sub(r'\s+', '', db[mf.end():pe - 1])
+                    rest = db[pe:].lstrip()
+                    if not rest.startswith('{'):
+                        continue
+                    bs = pe + (len(db[pe:]) - len(rest))
+                    be = _balanced(db, bs, '{', '}')
+                    if bs < mc.start() < be and cond in (arg, arg + 'isntNULL', 'not(' + arg + 'isNULL)'):
+                        cls = 'guarded'
+                if cls == 'unguarded':
+                    mfld = re.fullmatch(r'\w+->(\w+)', arg)
+                    if mfld and re.search(r'->%s\s*=\s*new(_raw|_root)?\s*\(' % mfld.group(1), cb):
+                        cls = 'constructed'
+                fwd.append((fname, dtor, mc.group(1) + '(' + arg + ')', cls))
+    emit('cfg_del_forwards', None if not fwd else
+         'Definition cfg_del_forwards : list (string * string * string * string) := [\n  %s]%%string.   (* file, destructor, forwarded call, class *)'
+         % ';\n  '.join(row4(r) for r in fwd))
+    box = [r for r in fwd if r[1] == 'Box_Del']
+    emit('cfg_box_del_guarded', None if len(box) != 1 else
+         'Definition cfg_box_del_guarded : bool := %s.   (* source: Box_Del: %s is %s *)'
+         % ('true' if box[0][3] == 'guarded' else 'false', box[0][2], box[0][3]))
 
     # ---------------------------------------------------------------- cache wiring
     ty = src('src/Type.c')
